@@ -1213,9 +1213,332 @@ def tr_team(res):
     res["teamCrossover"] = {"range": rng, "op": "member[k]:=crossover(%s[k],%s[k])" % tuple(who), "n": "lhs.individuals()"}
 
 
+# ------------------------------------------------------------------ symbol_set.cc: roulette
+SS_TU = "symbol_set_tu.cc"
+
+
+def view_of(n, cparam):
+    """'functions' for `views_[c].functions` (the category must be the parameter)"""
+    ch = peel_base(n)
+    if ch.get("kind") != "MemberExpr":
+        raise Refuse("roulette: not a view of a category")
+    name = ch.get("name")
+    idx = peel(kids(ch)[0])
+    if not (idx.get("kind") == "CXXOperatorCallExpr" and X.callee_name(idx) == "operator[]" and
+            member_chain(kids(idx)[1]) == ["$this", "views_"] and
+            strip(kids(idx)[2]).get("referencedDecl", {}).get("name") == cparam):
+        raise Refuse("roulette: the view is not views_[%s].<view>" % cparam)
+    return name
+
+
+def view_roulette(n, cparam):
+    """the view V of `views_[c].V.roulette()` (possibly static_cast to function / terminal)"""
+    n = peel(n)
+    while n.get("kind") in ("CXXStaticCastExpr", "ImplicitCastExpr") and n.get("castKind") in ("BaseToDerived", "NoOp", "DerivedToBase") \
+            and len(kids(n)) == 1:
+        n = peel(kids(n)[0])
+    if n.get("kind") != "CXXMemberCallExpr":
+        raise Refuse("roulette: the result is not a call")
+    f = peel(kids(n)[0])
+    if f.get("kind") != "MemberExpr" or f.get("name") != "roulette" or len(kids(n)) != 1:
+        raise Refuse("roulette: the result is not <view>.roulette()")
+    return view_of(kids(f)[0], cparam)
+
+
+def tr_roulette(res):
+    docs = X.ast_dump(SS_TU, "vita::symbol_set::roulette")
+    # symbol_set::roulette(c)
+    d = find_decl(docs, "CXXMethodDecl", "roulette")[0]
+    c = params_of(d)[0].get("name")
+    st = [x for x in kids(body_of(d)) if x.get("kind") != "NullStmt"]
+    if len(st) != 2 or st[0].get("kind") != "IfStmt" or st[1].get("kind") != "ReturnStmt" or len(kids(st[0])) != 2:
+        raise Refuse("symbol_set::roulette: shape")
+    cond, then = kids(st[0])
+    cond = peel(cond)
+    if not (cond.get("kind") == "BinaryOperator" and cond.get("opcode") == "&&"):
+        raise Refuse("symbol_set::roulette: the guard is not a conjunction")
+    g1, g2 = kids(cond)
+    fc = free_call(g1)
+    if not (fc and fc[0] == "boolean" and not fc[1]):
+        raise Refuse("symbol_set::roulette: the first conjunct is not random::boolean()")
+    mc = peel(unbool(g2))
+    if mc.get("kind") != "CXXMemberCallExpr":
+        raise Refuse("symbol_set::roulette: the second conjunct is not <view>.size()")
+    f = peel(kids(mc)[0])
+    if f.get("kind") != "MemberExpr" or f.get("name") != "size":
+        raise Refuse("symbol_set::roulette: the second conjunct is not <view>.size()")
+    if then.get("kind") != "ReturnStmt":
+        raise Refuse("symbol_set::roulette: the guarded statement is not a return")
+    res["rouletteSel"] = {"coin": True, "guard": view_of(kids(f)[0], c), "then": view_roulette(kids(then)[0], c),
+                          "else": view_roulette(kids(st[1])[0], c)}
+    # symbol_set::roulette_terminal(c)
+    d = find_decl(docs, "CXXMethodDecl", "roulette_terminal")[0]
+    c = params_of(d)[0].get("name")
+    st = [x for x in kids(body_of(d)) if x.get("kind") != "NullStmt"]
+    if len(st) != 1 or st[0].get("kind") != "ReturnStmt":
+        raise Refuse("symbol_set::roulette_terminal: shape")
+    res["rouletteTerminal"] = view_roulette(kids(st[0])[0], c)
+    # symbol_set::insert: which symbols each view receives
+    docs = X.ast_dump(SS_TU, "vita::symbol_set::insert")
+    d = find_decl(docs, "CXXMethodDecl", "insert", lambda t: "unique_ptr" in t)[0]
+    sp = params_of(d)[0].get("name")
+    ins = []
+
+    def view_insert(n):
+        mc = member_call(n)
+        if not (mc and mc[1] == "insert" and len(mc[2]) == 1):
+            return None
+        f = peel(kids(peel(n))[0])
+        v = peel_base(kids(f)[0])
+        if v.get("kind") != "MemberExpr":
+            return None
+        idx = peel(kids(v)[0])
+        if not (idx.get("kind") == "CXXOperatorCallExpr" and X.callee_name(idx) == "operator[]" and
+                member_chain(kids(idx)[1]) == ["$this", "views_"] and
+                strip(kids(idx)[2]).get("referencedDecl", {}).get("name") == "category"):
+            raise Refuse("symbol_set::insert: a view of something else than views_[category]")
+        return v.get("name")
+
+    for stx in kids(body_of(d)):
+        v = view_insert(stx)
+        if v is not None:
+            ins.append((v, "always"))
+        elif stx.get("kind") == "IfStmt":
+            ks = kids(stx)
+            mc = member_call(ks[0])
+            if mc and mc[1] == "terminal" and not mc[2] and len(ks) == 3:
+                obj = peel(kids(peel(kids(peel(ks[0]))[0]))[0])
+                who = X.find_all(obj, lambda x: x.get("kind") == "DeclRefExpr" and
+                                 not x.get("referencedDecl", {}).get("name", "").startswith("operator"))
+                if not (who and who[0].get("referencedDecl", {}).get("name") == sp):
+                    raise Refuse("symbol_set::insert: terminal() of something else than the inserted symbol")
+                a, b = view_insert(ks[1]), view_insert(ks[2])
+                if a is None or b is None:
+                    raise Refuse("symbol_set::insert: the branches on terminal() do not insert into views")
+                ins += [(a, "terminal()"), (b, "!terminal()")]
+    res["viewInsert"] = ins
+
+    # sum_container::roulette(): the wedge loop
+    docs = X.ast_dump(SS_TU, "vita::symbol_set::collection::sum_container::roulette")
+    d = find_decl(docs, "CXXMethodDecl", "roulette")[0]
+    st = [x for x in kids(body_of(d)) if x.get("kind") not in ("NullStmt",)]
+    st = [x for x in st if not (x.get("kind") == "ParenExpr" and "void" in qtype(x))]     # assert() under NDEBUG
+    if len(st) != 4 or st[0].get("kind") != "DeclStmt" or st[1].get("kind") != "DeclStmt" or \
+            st[2].get("kind") != "ForStmt" or st[3].get("kind") != "ReturnStmt":
+        raise Refuse("sum_container::roulette: shape %r" % [x.get("kind") for x in st])
+    vslot, vidx = kids(st[0])[0], kids(st[1])[0]
+    fc = free_call(kids(vslot)[0])
+    if not (fc and fc[0] == "sup" and len(fc[1]) == 1):
+        raise Refuse("sum_container::roulette: the slot is not random::sup(…)")
+    mc = member_call(fc[1][0])
+    if not (mc and mc[0] == ["$this"] and mc[1] == "sum" and not mc[2]):
+        raise Refuse("sum_container::roulette: the slot is not drawn below sum()")
+    names = {vslot.get("name"): ("slot",), vidx.get("name"): ("idx",)}
+    init, condvar, cond, inc, body = st[2].get("inner")
+    if condvar not in ({}, None) and condvar.get("kind") is not None:
+        raise Refuse("sum_container::roulette: condition variable")
+    vacc = kids(init)[0]
+    if init.get("kind") != "DeclStmt" or len(kids(init)) != 1:
+        raise Refuse("sum_container::roulette: for-init")
+    if body.get("kind") != "CompoundStmt" or kids(body):
+        raise Refuse("sum_container::roulette: the loop body is not empty")
+
+    def we(n, eff):
+        """expression over (idx, acc, slot, weights); `eff` collects (pre, post) increments of the index"""
+        n = strip(n)
+        k = n.get("kind")
+        if k == "IntegerLiteral":
+            return ("lit", int(n.get("value")))
+        if k == "DeclRefExpr":
+            nm = n.get("referencedDecl", {}).get("name")
+            if nm in names:
+                return names[nm]
+            raise Refuse("sum_container::roulette: unknown name %r" % nm)
+        if k == "BinaryOperator" and n.get("opcode") == "+":
+            a, b = kids(n)
+            return ("add", we(a, eff), we(b, eff))
+        if k == "UnaryOperator" and n.get("opcode") == "++":
+            t = strip(kids(n)[0])
+            if names.get(t.get("referencedDecl", {}).get("name")) != ("idx",):
+                raise Refuse("sum_container::roulette: ++ of something else than the index")
+            if eff is None or eff["pre"] or eff["post"]:
+                raise Refuse("sum_container::roulette: increment in an unexpected place")
+            eff["post" if n.get("isPostfix") else "pre"] = True
+            return ("idx",)
+        if k == "MemberExpr" and n.get("name") == "weight":
+            e = peel(kids(n)[0])
+            if e.get("kind") == "CXXOperatorCallExpr" and X.callee_name(e) == "operator[]" and \
+                    member_chain(kids(e)[1]) == ["$this", "elems_"]:
+                return ("wt", we(kids(e)[2], eff))
+        raise Refuse("sum_container::roulette: expression of kind %s" % k)
+
+    acc0 = we(kids(vacc)[0], None)
+    names[vacc.get("name")] = ("acc",)
+    idx0 = we(kids(vidx)[0], None)
+    c = strip(cond)
+    cmpop = {"<": "lt", ">": "gt", "<=": "le", ">=": "ge", "!=": "ne", "==": "eq"}.get(c.get("opcode")) \
+        if c.get("kind") == "BinaryOperator" else None
+    if cmpop is None:
+        raise Refuse("sum_container::roulette: loop condition")
+    lhs, rhs = [we(x, None) for x in kids(c)]
+    i = peel(inc)
+    if not (i.get("kind") == "CompoundAssignOperator" and i.get("opcode") == "+=" and
+            names.get(strip(kids(i)[0]).get("referencedDecl", {}).get("name")) == ("acc",)):
+        raise Refuse("sum_container::roulette: the step is not `wedge += …`")
+    eff = {"pre": False, "post": False}
+    add = we(kids(i)[1], eff)
+    step = []
+    if eff["pre"]:
+        step.append(("idx", ("add", ("idx",), ("lit", 1))))
+    step.append(("acc", ("add", ("acc",), add)))
+    if eff["post"]:
+        step.append(("idx", ("add", ("idx",), ("lit", 1))))
+    r = peel(kids(st[3])[0])
+    if not (r.get("kind") == "UnaryOperator" and r.get("opcode") == "*"):
+        raise Refuse("sum_container::roulette: result")
+    m = strip(kids(r)[0])
+    e = peel(kids(m)[0]) if m.get("kind") == "MemberExpr" and m.get("name") == "sym" else {}
+    if not (e.get("kind") == "CXXOperatorCallExpr" and X.callee_name(e) == "operator[]" and
+            member_chain(kids(e)[1]) == ["$this", "elems_"]):
+        raise Refuse("sum_container::roulette: the result is not *elems_[…].sym")
+    res["wedge"] = {"slotSup": "sum()", "idx0": idx0, "acc0": acc0, "cmp": cmpop, "lhs": lhs, "rhs": rhs,
+                    "step": step, "ret": we(kids(e)[2], None)}
+
+
+def lean_we(e):
+    t = e[0]
+    if t == "lit":
+        return "(.lit %d)" % e[1]
+    if t in ("idx", "acc", "slot"):
+        return "." + t
+    if t == "wt":
+        return "(.wt %s)" % lean_we(e[1])
+    if t == "add":
+        return "(.add %s %s)" % (lean_we(e[1]), lean_we(e[2]))
+    raise Refuse("wedge expression %r" % (t,))
+
+
+# ------------------------------------------------------------------ locus::operator< and random_locus
+def tr_walk(res):
+    docs = X.ast_dump(TU, "vita::operator<")
+    cands = []
+    for d in docs:
+        cands += X.find_all(d, lambda x: x.get("kind") == "FunctionDecl" and x.get("name") == "operator<" and
+                            body_of(x) is not None and qtype(x).startswith("bool (const vita::locus &, const vita::locus &)"))
+    if not cands:
+        raise Refuse("no operator<(const locus &, const locus &)")
+    d = cands[0]
+    p1, p2 = [x.get("name") for x in params_of(d)]
+    st = [x for x in kids(body_of(d)) if x.get("kind") != "NullStmt"]
+    if len(st) != 1 or st[0].get("kind") != "ReturnStmt":
+        raise Refuse("operator<(locus, locus): shape")
+    fields = {(p1, "index"): 0, (p1, "category"): 1, (p2, "index"): 2, (p2, "category"): 3}
+
+    def be(n):
+        n = strip(n)
+        k = n.get("kind")
+        if k == "BinaryOperator":
+            a, b = kids(n)
+            op = n.get("opcode")
+            if op == "||":
+                return "(.or %s %s)" % (be(a), be(b))
+            if op == "&&":
+                return "(.and %s %s)" % (be(a), be(b))
+            c = {"<": "lt", ">": "gt", "<=": "le", ">=": "ge", "!=": "ne", "==": "eq"}.get(op)
+            if c:
+                return "(.cmp .%s %s %s)" % (c, be(a), be(b))
+            raise Refuse("operator<(locus, locus): operator %r" % op)
+        if k == "UnaryOperator" and n.get("opcode") == "!":
+            return "(.not %s)" % be(kids(n)[0])
+        ch = member_chain(n)
+        if ch and len(ch) == 2 and (ch[0][1:], ch[1]) in fields:
+            return "(.var %d)" % fields[(ch[0][1:], ch[1])]
+        raise Refuse("operator<(locus, locus): expression of kind %s" % k)
+
+    res["locusLess"] = be(kids(st[0])[0])
+
+    docs = X.ast_dump(TU, "vita::random_locus")
+    d = find_decl(docs, "FunctionDecl", "random_locus")[0]
+    prg = params_of(d)[0].get("name")
+    st = [x for x in kids(body_of(d)) if x.get("kind") != "NullStmt"]
+    if [x.get("kind") for x in st] != ["DeclStmt", "DeclStmt", "DoStmt", "ReturnStmt"]:
+        raise Refuse("random_locus: shape %r" % [x.get("kind") for x in st])
+    vset, vit = kids(st[0])[0], kids(st[1])[0]
+    w = {}
+    if qtype(vset).replace("class ", "") not in ("std::set<vita::locus>",):
+        raise Refuse("random_locus: the work set is a %r" % qtype(vset))
+    w["container"] = "std::set<locus>"
+    il = X.find_all(vset, lambda x: x.get("kind") == "InitListExpr")
+    if not (il and len(kids(il[0])) == 1):
+        raise Refuse("random_locus: initial content of the set")
+    mc = member_call(kids(il[0])[0])
+    if not (mc and mc[0] == ["$" + prg] and mc[1] == "best" and not mc[2]):
+        raise Refuse("random_locus: the set does not start as {prg.best()}")
+    w["init"] = "{prg.best()}"
+    mc = member_call(kids(vit)[0])
+    if not (mc and mc[0] == ["$" + vset.get("name")] and mc[1] == "begin"):
+        raise Refuse("random_locus: the cursor does not start at begin()")
+    w["cursor"] = "begin()"
+    body, cond = kids(st[2])
+    bs = [x for x in kids(body) if x.get("kind") != "NullStmt"]
+    if len(bs) != 2 or bs[0].get("kind") != "DeclStmt":
+        raise Refuse("random_locus: loop body")
+    vargs = kids(bs[0])[0]
+    mc = member_call(kids(vargs)[0])
+    ok = False
+    if mc and mc[1] == "arguments" and not mc[2]:
+        f = peel(kids(peel(kids(vargs)[0]))[0])
+        obj = peel(kids(f)[0])
+        if obj.get("kind") == "CXXOperatorCallExpr" and X.callee_name(obj) == "operator[]":
+            o2 = kids(obj)
+            who = peel(o2[1]).get("referencedDecl", {}).get("name")
+            arg = peel(o2[2])
+            if arg.get("kind") == "CXXConstructExpr" and len(kids(arg)) == 1:
+                arg = peel(kids(arg)[0])
+            ok = who == prg and arg.get("kind") == "CXXOperatorCallExpr" and X.callee_name(arg) == "operator*" and \
+                peel(kids(arg)[1]).get("referencedDecl", {}).get("name") == vit.get("name")
+    if not ok:
+        raise Refuse("random_locus: the loop does not take prg[*iter].arguments()")
+    mc = member_call(bs[1])
+    if not (mc and mc[0] == ["$" + vset.get("name")] and mc[1] == "insert" and len(mc[2]) == 2):
+        raise Refuse("random_locus: the loop does not insert a range into the set")
+    m1, m2 = member_call(mc[2][0]), member_call(mc[2][1])
+    if not (m1 and m2 and m1[0] == ["$" + vargs.get("name")] and m1[1] == "begin" and
+            m2[0] == ["$" + vargs.get("name")] and m2[1] == "end"):
+        raise Refuse("random_locus: the inserted range is not args.begin() .. args.end()")
+    w["expand"] = "insert:prg[*iter].arguments()"
+    c = peel(cond)
+    ok = False
+    if c.get("kind") == "CXXOperatorCallExpr" and X.callee_name(c) == "operator!=":
+        a, b = kids(c)[1:]
+        a = peel(a)
+        mb = member_call(b)
+        ok = a.get("kind") == "CXXOperatorCallExpr" and X.callee_name(a) == "operator++" and len(kids(a)) == 2 and \
+            peel(kids(a)[1]).get("referencedDecl", {}).get("name") == vit.get("name") and \
+            mb is not None and mb[0] == ["$" + vset.get("name")] and mb[1] == "end"
+    if not ok:
+        raise Refuse("random_locus: the loop does not run while ++iter != set.end()")
+    w["advance"] = "do-while:++iter!=end()"
+    r = peel(kids(st[3])[0])
+    if r.get("kind") == "CXXConstructExpr" and len(kids(r)) == 1:
+        r = peel(kids(r)[0])
+    fc = free_call(r)
+    ok = False
+    if fc and fc[0] == "element" and len(fc[1]) == 1:
+        a = peel(fc[1][0])
+        f2 = free_call(a)
+        if f2 and f2[0] == "as_const" and len(f2[1]) == 1:
+            a = peel(f2[1][0])
+        ok = a.get("referencedDecl", {}).get("name") == vset.get("name")
+    if not ok:
+        raise Refuse("random_locus: the result is not random::element(set)")
+    w["result"] = "random::element(set)"
+    res["randomLocus"] = w
+
+
 def extract():
     res = {}
-    for f in (tr_ctor, tr_mutation, tr_crossover, tr_destroy, tr_get_block, tr_gene, tr_team):
+    for f in (tr_ctor, tr_mutation, tr_crossover, tr_destroy, tr_get_block, tr_gene, tr_team, tr_roulette, tr_walk):
         try:
             f(res)
         except (KeyError, IndexError, AttributeError, TypeError, ValueError) as e:
@@ -1230,7 +1553,7 @@ def strs(l):
 
 def render(res):
     L = ["/- GENERATED by tools/translate_mep_ops.py from the clang AST of src/kernel/gp/mep/i_mep.cc,",
-         "   src/kernel/gp/gene.tcc and src/kernel/gp/team.tcc – do not edit.",
+         "   src/kernel/gp/gene.tcc, src/kernel/gp/team.tcc, src/kernel/gp/locus.h and src/kernel/symbol_set.cc – do not edit.",
          "   Syntax only; the meaning is in Vita/C02/GenSem.lean, the proofs in Vita/C02/Props.lean (gen_*). -/",
          "import Vita.C02.GenSem",
          "namespace Vita.C02.Gen",
@@ -1261,6 +1584,25 @@ def render(res):
         t = res[k]
         L += ["def %s : TeamLoop := { range := ⟨%s, %s, %s⟩, op := \"%s\", n := \"%s\" }" % (
             k, lean_e(t["range"][0]), lean_e(t["range"][1]), "true" if t["range"][2] else "false", t["op"], t["n"]), ""]
+    wd = res["wedge"]
+    L += ["/-- symbol_set::collection::sum_container::roulette(): the wedge loop -/",
+          "def wedge : WedgeLoop :=\n  { slotSup := \"%s\", idx0 := %s, acc0 := %s,\n    cmp := .%s, lhs := %s, rhs := %s,\n    step := [%s],\n    ret := %s }" % (
+              wd["slotSup"], lean_we(wd["idx0"]), lean_we(wd["acc0"]), wd["cmp"], lean_we(wd["lhs"]), lean_we(wd["rhs"]),
+              ", ".join("(.%s, %s)" % (v, lean_we(e)) for v, e in wd["step"]), lean_we(wd["ret"])), ""]
+    rs = res["rouletteSel"]
+    L += ["/-- symbol_set::roulette(c): `if (boolean() && views_[c].G.size()) return views_[c].T.roulette(); return views_[c].E.roulette();` -/",
+          "def rouletteSel : Sel := { coin := %s, guardView := \"%s\", thenView := \"%s\", elseView := \"%s\" }" % (
+              "true" if rs["coin"] else "false", rs["guard"], rs["then"], rs["else"]), "",
+          "/-- symbol_set::roulette_terminal(c): the view asked -/",
+          "def rouletteTerminal : String := \"%s\"" % res["rouletteTerminal"], "",
+          "/-- symbol_set::insert: the views of `views_[category]` the new symbol enters, and when -/",
+          "def viewInsert : List (String × String) := [" + ", ".join('("%s", "%s")' % x for x in res["viewInsert"]) + "]", ""]
+    L += ["/-- operator<(const locus &l1, const locus &l2): `.var 0/1` = l1.index/category, `.var 2/3` = l2.index/category -/",
+          "def locusLess : E := " + res["locusLess"], ""]
+    rl = res["randomLocus"]
+    L += ["/-- random_locus(prg) -/",
+          "def randomLocus : Walk :=\n  { container := \"%s\", init := \"%s\", cursor := \"%s\",\n    expand := \"%s\", advance := \"%s\", result := \"%s\" }" % (
+              rl["container"], rl["init"], rl["cursor"], rl["expand"], rl["advance"], rl["result"]), ""]
     L += ["def teamMutation : List String := " + strs(res["teamMutation"]), "",
           "def teamIncAge : List String := " + strs(res["teamIncAge"]), "",
           "end Vita.C02.Gen"]
